@@ -17,6 +17,7 @@ type Registration struct {
 	Iface     string
 	IfaceType reflect.Type
 	New       func(t *RecT) any
+	Src       string // source text of the interface when it is a seeded random one ("" for the fixed corpus)
 }
 
 func (r *Registration) Key() string { return r.Variant + "/" + r.Iface }
@@ -43,6 +44,9 @@ type Case struct {
 	Sched   simsync.Config    `json:"sched"`
 	NilRate int               `json:"nil_rate"`
 	Seed    uint64            `json:"seed"`
+	// IfaceSrc is the source text of the mocked interface when it is a seeded random one: a replay
+	// re-creates exactly this interface instead of deriving the random ones from a seed.
+	IfaceSrc string `json:"iface_src,omitempty"`
 }
 
 type Violation struct {
